@@ -290,11 +290,15 @@ def make_files(args):
             for k in range(2):
                 rng = random.Random(f'c05-{seed}-{rec["index"]}-{k}')
 
+                declared_cid = set()
+
                 def conv(nd):
                     wmap = wire.get(nd['class'], {})
                     props = {}
                     for back, v in nd['props'].items():
                         props[wmap[back][0] if back in wmap else back] = to_xml_value(v, rng)
+                        if back in wmap and v['t'] == 'ContentId':
+                            declared_cid.add(wmap[back][0])
                     return {'class': nd['class'], 'name': nd['name'], 'props': props, 'children': [conv(c) for c in nd['children']]}
 
                 xdump = {'roots': [conv(r) for r in rec['logical']['roots']]}
@@ -306,6 +310,7 @@ def make_files(args):
                     # element for ContentId values (described in the document as the historical spelling)
                     opts['hex_upper'] = True
                     opts['legacy_content'] = True
+                    opts['contentid_declared_names'] = declared_cid
                 try:
                     text = refxml.encode(xdump, rng, opts)
                 except refxml.RefError:
